@@ -513,7 +513,7 @@ impl Url {
     ///
     /// [`join`]: #method.join
     pub fn make_relative(&self, url: &Url) -> Option<String> {
-        if self.cannot_be_a_base() {
+        if self.cannot_be_a_base() || url.cannot_be_a_base() {
             return None;
         }
 
